@@ -337,7 +337,7 @@ def gen_toolbox(rng: random.Random) -> dict:
             return [k, ref(0.7)]
         if k in ("star", "plus"):
             return [k, progress_seq() if rng.random() < 0.35 else progress_ref()]
-        return bounded(progress_ref())
+        return bounded(progress_seq() if rng.random() < 0.4 else progress_ref())
 
     def is_consuming(e):
         k = e[0]
@@ -392,8 +392,10 @@ def operands(ast):
     shapes = [operand_shape(o) for o in ops]
     if any(sh is None for sh in shapes):
         return None
-    if k in ("seq", "pushx", "rep") and any(sh[0] != "ref" for sh in shapes):
+    if k in ("seq", "pushx") and any(sh[0] != "ref" for sh in shapes):
         return None
+    if k == "rep" and shapes[0][0] == "rep":
+        return None  # a bounded repetition of a bounded repetition: iterations cannot be told apart
     return shapes
 
 
